@@ -1,0 +1,54 @@
+//go:build verif
+
+// Contracts of type/name map extraction (C16).  Comment-only file.
+
+package hessian
+
+//@ func RawValue
+//@   pure
+//@   defines R.rawValue(v)
+//@   loop 1 invariant [C16:raw-walk] true
+//@   ensures [C16:raw-not-ptr] R.kind(result) != K.Ptr
+
+//@ func FetchType
+//@   requires typMap != nil
+//@   assigns mapof(typMap)
+//@   measure [C16:fetchtype-terminates] grows mapsize(typMap) then shrinks T.height(typ)
+//@   let ut = R.unpackPtrType(typ)
+//@   loop 1 invariant [C16:fetch-fields] 0 <= i && mapsize(typMap) > old(mapsize(typMap)) && maphas(typMap, R.tName(typ)) && typ == R.unpackPtrType(entry(typ))
+//@   ensures [C16:fetch-grows] mapsize(typMap) >= old(mapsize(typMap))
+//@   ensures [C16:fetch-monotone] forall k string :: old(maphas(typMap, k)) ==> maphas(typMap, k)
+//@   ensures [C16:fetch-registers-struct] R.tKind(ut) == K.Struct ==> maphas(typMap, R.tName(ut))
+
+//@ func TypeMapOf
+//@   ensures [C16:typemap-fresh] fresh(result) && result != nil
+//@   ensures [C16:typemap-root]  R.tKind(R.unpackPtrType(typ)) == K.Struct ==> maphas(result, R.tName(R.unpackPtrType(typ)))
+
+// @dyntrue: number of extractor calls that answered true so far (each registers a type name not seen
+// before, so it is bounded by the number of type names: A-META); @nrec: recursive descents at this level.
+
+//@ func ExtractValue
+//@   assigns @dyncalls, @lastdyn, @dyntrue, @nrec, @rset
+//@   summary @nrec = old(@nrec) + 1
+//@   summary @dyntrue = old(@dyntrue)
+//@   summary @dyncalls = old(@dyncalls)
+//@   measure [C16:extractvalue-terminates] grows @dyntrue
+//@   loop 1 invariant [C16:extract-unwrap] @dyncalls == old(@dyncalls) && @dyntrue == old(@dyntrue) && @nrec == old(@nrec)
+//@   loop 2 invariant [C16:extract-elements] 0 <= i && i <= R.len(v) && @nrec == old(@nrec) + i && @dyntrue == old(@dyntrue) + 1 && @dyncalls == old(@dyncalls) + 1
+//@   loop 3 invariant [C16:extract-entries] rangeindex + 1 <= R.mapLen(v) && @nrec == old(@nrec) + 2 * (rangeindex + 1) && @dyntrue == old(@dyntrue) + 1 && @dyncalls == old(@dyncalls) + 1
+//@   loop 4 invariant [C16:extract-fields] 0 <= i && i <= R.numField(v) && @nrec == old(@nrec) + i && @dyntrue == old(@dyntrue) + 1 && @dyncalls == old(@dyncalls) + 1
+//@   proves  [C16:extract-one-extractor-call] @dyncalls <= old(@dyncalls) + 1
+//@   proves  [C16:closure-slice-nonempty] @dyntrue == old(@dyntrue) + 1 && (R.kind(now(v)) == K.Array || R.kind(now(v)) == K.Slice) && R.len(now(v)) != 0 ==> @nrec == old(@nrec) + R.len(now(v))
+//@   proves  [C16:closure-slice-empty]    @dyntrue == old(@dyntrue) + 1 && (R.kind(now(v)) == K.Array || R.kind(now(v)) == K.Slice) && R.len(now(v)) == 0 ==> @nrec == old(@nrec) + 1
+//@   proves  [C16:closure-map-empty]      @dyntrue == old(@dyntrue) + 1 && R.kind(now(v)) == K.Map && R.len(now(v)) == 0 ==> @nrec == old(@nrec) + 2
+//@   proves  [C16:closure-map-nonempty]   @dyntrue == old(@dyntrue) + 1 && R.kind(now(v)) == K.Map && R.len(now(v)) != 0 ==> @nrec == old(@nrec) + 2 * R.mapLen(now(v))
+//@   proves  [C16:closure-struct]         @dyntrue == old(@dyntrue) + 1 && R.kind(now(v)) == K.Struct ==> @nrec == old(@nrec) + R.numField(now(v))
+
+//@ func ExtractTypeNameMap$1
+//@   requires typMap != nil && nameMap != nil
+//@   assigns mapof(typMap), mapof(nameMap)
+//@   let tn = R.typeName(R.typeOf(v))
+//@   ensures [C16:extractor-rejects-seen]   result == (R.isValid(v) && !old(maphas(typMap, tn)))
+//@   ensures [C16:extractor-registers]      result ==> maphas(typMap, tn) && mapget(typMap, tn) == R.typeOf(v) && maphas(nameMap, tn) && mapsize(typMap) > old(mapsize(typMap))
+//@   ensures [C16:extractor-name-consistent] result ==> maphas(typMap, mapget(nameMap, tn)) && mapget(typMap, mapget(nameMap, tn)) == R.typeOf(v)
+//@   ensures [C16:extractor-frame]          !result ==> mapsize(typMap) == old(mapsize(typMap)) && mapsize(nameMap) == old(mapsize(nameMap))
